@@ -467,4 +467,10 @@ def rule_dial_address(ctx):
     ctx.ob(R, "source watch", True, "the receiver is self.gossip.validator_addrs.subscribe()" if subs else "undecided shape (not reported)")
 
 
-RULES = [("C18.1", rule_update_table), ("C18.2", rule_all_or_nothing), ("C18.3", rule_order), ("C18.4", rule_writers), ("C18.5", rule_handler), ("C18.7", rule_dial_address)]
+def rule_announcement_codec(ctx):
+    from .c09 import rule_codec_api
+    rule_codec_api(ctx, R="C18.8", only=lambda t: t.endswith(("discovery::NetAddress", "net::SocketAddr", "time::Utc", "msg::Signed", "msg::Msg")), floor=5,
+                   desc="the announcement travels unchanged: the decoders / encoders of NetAddress, its SocketAddr and timestamp, and of the signed envelope call only reviewed value-preserving conversions (tables/codec_api.json) - a decoder that normalises the address makes the receiver hash another message than the validator signed, so an authentic newer announcement fails verification, the whole batch is dropped and the node keeps dialling the old address")
+
+
+RULES = [("C18.8", rule_announcement_codec), ("C18.1", rule_update_table), ("C18.2", rule_all_or_nothing), ("C18.3", rule_order), ("C18.4", rule_writers), ("C18.5", rule_handler), ("C18.7", rule_dial_address)]
